@@ -339,3 +339,94 @@ Definition sp_reinterpret (a : value) (t : vtype) : res value :=
   if negb (tbits (vty a) =? tbits t) then Err ETypeMismatch else Ok (mkV t (vbits a)).
 
 End ValueSpec.
+
+(* ------------------------------------------------------------------ Part 3: the canonical encoder
+   (DWARF 5 §7.7.1; used for decode_roundtrip and by the correspondence generators) *)
+(* ---- signed LEB128 encoder (spec) ---- *)
+Fixpoint enc_sleb_fuel (fuel : nat) (z : Z) : list byte :=
+  match fuel with
+  | O => []
+  | S f =>
+      let b := Z.to_N (z mod 128) in
+      let q := (z / 128)%Z in
+      if ((q =? 0)%Z && (b <? 64)) || ((q =? -1)%Z && (64 <=? b)) then [n2b b]
+      else n2b (128 + b) :: enc_sleb_fuel f q
+  end.
+Definition enc_sleb (z : Z) : list byte := enc_sleb_fuel 10 z.
+
+
+(* ---- the canonical encoding of an operation (spec encoder) ---- *)
+Definition enc_off (e : enc) (v : N) : list byte := enc_un (if e_fmt64 e then 8 else 4) (e_be e) v.
+Definition enc_addr (e : enc) (v : N) : list byte := enc_un (N.to_nat (e_asz e)) (e_be e) v.
+Definition enc_i16 (e : enc) (t : Z) : list byte := enc_un 2 (e_be e) (of_signed 16 t).
+Definition enc_block (d : list byte) : list byte := enc_uleb (N.of_nat (length d)) ++ d.
+
+Definition enc_op (e : enc) (o : operation) : list byte :=
+  match o with
+  | ODeref bt size space =>
+      if bt =? 0 then [if space then x95 else x94; n2b size]
+      else [if space then xa7 else xa6; n2b size] ++ enc_uleb bt
+  | ODrop => [x13] | OPick i => [x15; n2b i] | OSwap => [x16] | ORot => [x17]
+  | OAbs => [x19] | OAnd => [x1a] | ODiv => [x1b] | OMinus => [x1c] | OMod => [x1d] | OMul => [x1e]
+  | ONeg => [x1f] | ONot => [x20] | OOr => [x21] | OPlus => [x22]
+  | OPlusConstant v => x23 :: enc_uleb v
+  | OShl => [x24] | OShr => [x25] | OShra => [x26] | OXor => [x27]
+  | OBra t => x28 :: enc_i16 e t
+  | OEq => [x29] | OGe => [x2a] | OGt => [x2b] | OLe => [x2c] | OLt => [x2d] | ONe => [x2e]
+  | OSkip t => x2f :: enc_i16 e t
+  | OUnsignedConstant v => x10 :: enc_uleb v
+  | OSignedConstant v => x11 :: enc_sleb v
+  | ORegister r => x90 :: enc_uleb r
+  | ORegisterOffset r off bt =>
+      if bt =? 0 then x92 :: enc_uleb r ++ enc_sleb off else xa5 :: enc_uleb r ++ enc_uleb bt
+  | OFrameOffset off => x91 :: enc_sleb off
+  | ONop => [x96] | OPushObjectAddress => [x97]
+  | OCall (UnitRef o) => x99 :: enc_un 4 (e_be e) o
+  | OCall (DebugInfoRef o) => x9a :: enc_off e o
+  | OVariableValue o => xfd :: enc_off e o
+  | OTLS => [x9b] | OCallFrameCFA => [x9c]
+  | OPiece s None => x93 :: enc_uleb (s / 8)
+  | OPiece s (Some off) => x9d :: enc_uleb s ++ enc_uleb off
+  | OImplicitValue d => x9e :: enc_block d
+  | OStackValue => [x9f]
+  | OImplicitPointer v off => xa0 :: (if e_ver e =? 2 then enc_addr e v else enc_off e v) ++ enc_sleb off
+  | OEntryValue x => xa3 :: enc_block x
+  | OParameterRef o => xfa :: enc_un 4 (e_be e) o
+  | OAddress a => x03 :: enc_addr e a
+  | OAddressIndex i => xa1 :: enc_uleb i
+  | OConstantIndex i => xa2 :: enc_uleb i
+  | OTypedLiteral bt v => xa4 :: enc_uleb bt ++ n2b (N.of_nat (length v)) :: v
+  | OConvert bt => xa8 :: enc_uleb bt
+  | OReinterpret bt => xa9 :: enc_uleb bt
+  | OUninitialized => [xf0]
+  | OWasmLocal i => xed :: x00 :: enc_uleb i
+  | OWasmGlobal i => xed :: x01 :: enc_uleb i
+  | OWasmStack i => xed :: x02 :: enc_uleb i
+  end.
+
+(* the operations that exist as values of gimli's Operation type and have an encoding under e *)
+Definition u64 (v : N) : Prop := v < 2 ^ 64.
+Definition fits_off (e : enc) (v : N) : Prop := v < 256 ^ (if e_fmt64 e then 8 else 4).
+Definition fits_addr (e : enc) (v : N) : Prop :=
+  (e_asz e = 1 \/ e_asz e = 2 \/ e_asz e = 4 \/ e_asz e = 8) /\ v < 256 ^ e_asz e.
+Definition wf_op (e : enc) (o : operation) : Prop :=
+  match o with
+  | ODeref bt size _ => u64 bt /\ size < 256
+  | OPick i => i < 256
+  | OPlusConstant v | OUnsignedConstant v | OAddressIndex v | OConstantIndex v | OConvert v | OReinterpret v => u64 v
+  | OBra t | OSkip t => in_signed 16 t = true
+  | OSignedConstant v | OFrameOffset v => in_i64 v = true
+  | ORegister r => r < 65536
+  | ORegisterOffset r off bt => r < 65536 /\ in_i64 off = true /\ u64 bt /\ (bt <> 0 -> off = 0%Z)
+  | OCall (UnitRef o) | OParameterRef o => o < 256 ^ 4
+  | OCall (DebugInfoRef o) | OVariableValue o => fits_off e o
+  | OPiece s None => s mod 8 = 0 /\ u64 s
+  | OPiece s (Some off) => u64 s /\ u64 off
+  | OImplicitValue d | OEntryValue d => u64 (N.of_nat (length d))
+  | OImplicitPointer v off => (if e_ver e =? 2 then fits_addr e v else fits_off e v) /\ in_i64 off = true
+  | OAddress a => fits_addr e a
+  | OTypedLiteral bt v => u64 bt /\ N.of_nat (length v) < 256
+  | OWasmLocal i | OWasmGlobal i | OWasmStack i => i < 2 ^ 32
+  | _ => True
+  end.
+
